@@ -10,6 +10,7 @@ import EdzedProofs.DataLemmas
 import EdzedProofs.ErrorReg
 import EdzedProps.C09
 import EdzedModel.Gen.Translated
+import EdzedModel.Gen.TranslatedExt
 
 namespace Edzed.ExtEvent
 open ErrorReg
@@ -269,5 +270,49 @@ theorem translated_ext_source_is_model (src : String) : Gen.Tr.extSource src = E
   rw [ExtEvent.prefix_is_documented]
   have : Gen.extPrefix = "_ext_" := by decide
   rw [this]
+
+/-- the three outcomes of the translated `ExtEvent.send` as the model's result type -/
+def sendResOf : Except Gen.TrX.ExtErr Data → ExtEvent.SendRes
+  | .error .invalidState => .invalidState
+  | .error .typeError => .typeError
+  | .ok d => .delivered d
+
+/-- the model's `send` IS the body of `ExtEvent.send` translated from the source; the omitted positional
+    argument is the default `UNDEF` of the signature (an explicit value is never UNDEF) -/
+theorem translated_send_is_model (ready : Bool) (dflt : String) (value : Option Val) (data : Data)
+    (hv : ∀ v, value = some v → v.isUndef = false) :
+    sendResOf (Gen.TrX.extSend ready dflt (value.getD .undef) data) = ExtEvent.send ready dflt value data := by
+  have hp : Gen.extPrefix = "_ext_" := by decide
+  have hl : "_ext_".toList = ['_', 'e', 'x', 't', '_'] := by decide
+  have core : ∀ d : Data,
+      sendResOf (Gen.TrX.extSend true dflt .undef d) = ExtEvent.send true dflt none d := by
+    intro d
+    unfold Gen.TrX.extSend ExtEvent.send
+    simp only [Bool.not_true, Bool.false_eq_true, ↓reduceIte, show Val.undef.isUndef = true from rfl]
+    cases hs : d.get? "source" with
+    | none => simp [sendResOf, Val.str]
+    | some src =>
+      cases src with
+      | atom a =>
+        cases a with
+        | str x =>
+          simp only [Gen.TrX.strOf?, ExtEvent.prefixed, ExtEvent.pfx, hp, Val.str, hl]
+          by_cases hx : List.isPrefixOf ['_', 'e', 'x', 't', '_'] x.toList = true <;> simp [hx, sendResOf]
+        | _ => simp [Gen.TrX.strOf?, sendResOf]
+      | _ => simp [Gen.TrX.strOf?, sendResOf]
+  cases ready
+  · rfl
+  · cases value with
+    | none => exact core data
+    | some v =>
+      have h := hv v rfl
+      have e1 : Gen.TrX.extSend true dflt v data = Gen.TrX.extSend true dflt .undef (data.set "value" v) := by
+        unfold Gen.TrX.extSend
+        simp only [h, show Val.undef.isUndef = true from rfl, Bool.not_true, Bool.not_false,
+          Bool.false_eq_true, ↓reduceIte]
+      have e2 : ExtEvent.send true dflt (some v) data = ExtEvent.send true dflt none (data.set "value" v) := rfl
+      simp only [Option.getD_some]
+      rw [e1, e2]
+      exact core _
 
 end Edzed.TrTie
